@@ -60,29 +60,60 @@ def all_nodes(sf):
 def check_nodes(text, fe):
     """[(kind, node type, lines, detail)] for every node whose recorded location does not match the file"""
     flines = text.split('\n')
+    nonblank = [i + 1 for i, l in enumerate(flines) if l.strip()]
+    first_nb, last_nb = (nonblank[0], nonblank[-1]) if nonblank else (1, 1)
     sf = Sourcefile.from_source(text, frontend=fe)
     bad = []
     nodes = all_nodes(sf)
-    for idx, n in enumerate(nodes):
+
+    def rng_of(n):
         src = getattr(n, 'source', None)
         if src is None or src.string is None:
-            continue
+            return None
         a, b = src.lines
-        b = b or a
+        return a, (b or a)
+
+    # REGEX: the two pieces of an inline-IF call (RawSource with the condition, CallStatement) are produced with
+    # clone_with_span from one statement: together they must be exactly the text of their joint line range
+    pair = {}
+    if fe == REGEX:
+        for r, c in zip(nodes, nodes[1:]):
+            if type(r).__name__ == 'RawSource' and type(c).__name__ == 'CallStatement' and rng_of(r) and rng_of(c):
+                (ra, rb), (ca, cb) = rng_of(r), rng_of(c)
+                if 1 <= ra <= cb <= len(flines) and ra <= ca and r.source.string + c.source.string == '\n'.join(flines[ra - 1:cb]):
+                    pair[id(r)] = pair[id(c)] = True
+    # FP: statements inside the body of an inline IF
+    inline_body = set()
+    if fe == FP:
+        for n in nodes:
+            if isinstance(n, ir.Conditional) and n.inline:
+                for m in n.body:
+                    inline_body.add(id(m))
+    for n in nodes:
+        if rng_of(n) is None:
+            continue
+        src = n.source
+        a, b = rng_of(n)
         tn = type(n).__name__
         if not 1 <= a <= b <= len(flines):
             bad.append(('range', tn, src.lines, ''))
             continue
         region = '\n'.join(flines[a - 1:b])
         if fe == REGEX:
-            ok = src.string == region or src.string.strip() == region.strip()   # source.strip() drops outer blanks
-            if not ok and src.string in region and tn in ('RawSource', 'CallStatement'):
-                # pieces of an inline-IF call produced with clone_with_span
-                if tn == 'CallStatement' and not src.string.lstrip().lower().startswith('call'):
+            if id(n) in pair:
+                if src.string not in region:
+                    bad.append(('text', tn, src.lines, src.string[:50] + ' <> ' + region[:50]))
+                elif tn == 'CallStatement' and not src.string.lstrip().lower().startswith('call'):
                     bad.append(('inline-if', tn, src.lines, src.string[:40]))
                 continue
+            # exact: the recorded string IS the text of the recorded lines (source.strip() drops the outer blanks of
+            # the whole file, so nodes touching the first/last non-blank line are compared modulo outer blanks)
+            ok = src.string == region or ((a <= first_nb or b >= last_nb) and src.string.strip() == region.strip())
         elif tn == 'CommentBlock' and src.string.count('\n') == b - a:
             ok = all(norm(x) in norm(y) for x, y in zip(src.string.split('\n'), flines[a - 1:b]))
+        elif id(n) in inline_body:
+            # action statement of an inline IF: its text stands verbatim in exactly the recorded lines
+            ok = src.string.strip() in region and b - a == src.string.strip('\n').count('\n')
         else:
             ok = norm(src.string) in norm(region)
         if not ok:
@@ -96,6 +127,13 @@ def has_inline_if_call(text):
         if t[:2] == ['if', '('] and 'call' in t:
             return True
     return False
+
+
+FEATS20 = dict(c19.FEATS, p_inline_if=0.4, p_internal=0.5)
+LAYOUTS20 = {
+    'ifcont': dict(case='lower', p_break=0.04, p_semi=0.0, p_comment=0.3, p_inline=0.15, indent=2, p_ifbreak=0.8, p_head=0.3),
+    'heads': dict(case='mixed', p_break=0.0, p_semi=0.0, p_comment=0.1, p_inline=0.05, indent=2, p_ifbreak=0.3, p_head=0.9),
+}
 
 
 class C20(Prop):
@@ -131,9 +169,15 @@ class C20(Prop):
     def gen(self, rng, tier):
         n = {'quick': 15, 'thorough': 300, 'search': 100}.get(tier, 15)
         for i in range(n):
-            prog = c19.gen_prog(rng, c19.FEATS)
-            lname = list(c19.LAYOUTS)[i % len(c19.LAYOUTS)]
-            lines = c19.render(rng, prog, c19.LAYOUTS[lname])
+            if i % 3 == 2:
+                # inline IFs with the action on a continuation line, comment/blank lines at the head of nested sections
+                prog = c19.gen_prog(rng, FEATS20)
+                lname = ['ifcont', 'heads'][(i // 3) % 2]
+                lines = c19.render(rng, prog, LAYOUTS20[lname])
+            else:
+                prog = c19.gen_prog(rng, c19.FEATS)
+                lname = list(c19.LAYOUTS)[i % len(c19.LAYOUTS)]
+                lines = c19.render(rng, prog, c19.LAYOUTS[lname])
             if i % 5 == 4:
                 lines = [''] * rng.randint(1, 2) + lines + ['']
             nt = any(l.rstrip().endswith('&') or ';' in l for l in lines)
